@@ -368,9 +368,10 @@ def apply_callee_contract(interp, cands, mod, cname, fn, args, kwargs, ftxt):
                 interp.pure += 1
                 try:
                     g = interp.tr(node, cenv, -1)
+                    g_not = interp.tr(ast.UnaryOp(op=ast.Not(), operand=node), cenv, -1)
                 finally:
                     interp.pure -= 1
-                if interp.ctx.branch(b2z(g)):
+                if interp.ctx.branch_pair(g, g_not):
                     if et == '*':
                         et = c.may_raise[0]
                     raise PyRaise(et, ExcInst(et))
@@ -946,7 +947,7 @@ def post_obligations(it, c, penv, old, outcome):
         return
     if kind == 'return':
         cenv['result'] = val
-        it.prove_clauses(c.ensures, cenv, 'post', c.name)
+        it.prove_clauses(c.ensures + c.ensures_check_only, cenv, 'post', c.name)
         for et, cond in c.raises_iff.items():
             it.prove_clauses(['not (%s)' % cond], _old_view(it, cenv, old), 'exc',
                              '%s: no %s unless' % (c.name, et))
